@@ -358,6 +358,14 @@ class ListGrader(AbstractGrader):
                           "instead of ListGrader"
                     raise ConfigError(msg.format(group_idx, num_items, type(subgrader).__name__))
 
+        # Conversely, a ListGrader cannot grade a group that consists of a single input
+        subgraders = (self.config['subgraders'] if self.subgrader_list
+                      else [self.config['subgraders']] * len(self.grouping))
+        for py_idx, group in enumerate(self.grouping):
+            if len(group) == 1 and isinstance(subgraders[py_idx], ListGrader):
+                msg = "Grouping index {} has 1 item, but has a ListGrader subgrader"
+                raise ConfigError(msg.format(py_idx + 1))
+
     @staticmethod
     def ensure_text_inputs(student_input):
         return super(ListGrader, ListGrader).ensure_text_inputs(student_input, allow_single=False)
